@@ -77,6 +77,24 @@ type nistCurve struct{ c elliptic.Curve }
 // P256 is NIST P-256 through the Go standard library (the library's legacy path).
 var P256 Curve = nistCurve{elliptic.P256()}
 
+// P224, P384 and P521 are the other NIST prime curves of the Go standard library.
+// Their field elements are 28, 48 and 66 bytes long, so that the KDF and hash
+// inputs x2||y2 have 56, 96 and 132 bytes (not a multiple of the SM3 block size).
+var (
+	P224 Curve = nistCurve{elliptic.P224()}
+	P384 Curve = nistCurve{elliptic.P384()}
+	P521 Curve = nistCurve{elliptic.P521()}
+)
+
+// Elliptic returns the crypto/elliptic curve behind a NIST instance, nil for SM2
+// (whose arithmetic is verifh/ref/ec).
+func Elliptic(cv Curve) elliptic.Curve {
+	if n, ok := cv.(nistCurve); ok {
+		return n.c
+	}
+	return nil
+}
+
 func (n nistCurve) Name() string    { return n.c.Params().Name }
 func (n nistCurve) ByteLen() int    { return (n.c.Params().BitSize + 7) / 8 }
 func (n nistCurve) N() *big.Int     { return n.c.Params().N }
@@ -670,6 +688,44 @@ func SelfTest() error {
 	}
 	if yy, ok := SM2.Decompress(px, py.Bit(0)); !ok || yy.Cmp(py) != 0 {
 		return errors.New("ref/sm2enc self test: SM2 decompression")
+	}
+	// P-224, P-384, P-521 instances: the key pairs of RFC 6979 A.2.4, A.2.6, A.2.7, round trip in every form
+	for _, v := range []struct {
+		cv       Curve
+		d, x, y  string
+		elemSize int
+	}{
+		{P224, "F220266E1105BFE3083E03EC7A3A654651F45E37167E88600BF257C1",
+			"00CF08DA5AD719E42707FA431292DEA11244D64FC51610D94B130D6C",
+			"EEAB6F3DEBE455E3DBF85416F7030CBD94F34F2D6F232C69F3C1385A", 28},
+		{P384, "6B9D3DAD2E1B8C1C05B19875B6659F4DE23C3B667BF297BA9AA47740787137D896D5724E4C70A825F872C9EA60D2EDF5",
+			"EC3A4E415B4E19A4568618029F427FA5DA9A8BC4AE92E02E06AAE5286B300C64DEF8F0EA9055866064A254515480BC13",
+			"8015D9B72D7D57244EA8EF9AC0C621896708A59367F9DFB9F54CA84B3F1C9DB1288B231C3AE0D4FE7344FD2533264720", 48},
+		{P521, "00FAD06DAA62BA3B25D2FB40133DA757205DE67F5BB0018FEE8C86E1B68C7E75CAA896EB32F1F47C70855836A6D16FCC1466F6D8FBEC67DB89EC0C08B0E996B83538",
+			"01894550D0785932E00EAA23B694F213F8C3121F86DC97A04E5A7167DB4E5BCD371123D46E45DB6B5D5370A7F20FB633155D38FFA16D2BD761DCAC474B9A2F5023A4",
+			"00493101C962CD4D2FDDF782285E64584139C2F91B47F87FF82354D6630F746A28A0DB25741B5B34A828008B22ACC23F924FAAFBD4D33F81EA66956DFEAA2BFDFCF5", 66},
+	} {
+		dd, qx, qy := bi(v.d), bi(v.x), bi(v.y)
+		x, y, inf := v.cv.BaseMul(dd)
+		if inf || x.Cmp(qx) != 0 || y.Cmp(qy) != 0 || !v.cv.OnCurve(qx, qy) || v.cv.ByteLen() != v.elemSize {
+			return fmt.Errorf("ref/sm2enc self test: %s key pair of RFC 6979", v.cv.Name())
+		}
+		kk := new(big.Int).Mod(k, v.cv.N())
+		c3, err := Encrypt(v.cv, kk, qx, qy, m)
+		if err != nil {
+			return err
+		}
+		for _, f := range []Form{Uncompressed, Compressed, Hybrid} {
+			if got, err := Decrypt(v.cv, dd, c3.Plain(C1C3C2, f), PlainC1C3C2); err != nil || !bytes.Equal(got, m) {
+				return fmt.Errorf("ref/sm2enc self test: %s round trip", v.cv.Name())
+			}
+		}
+		if got, err := Decrypt(v.cv, dd, c3.ASN1(), ASN1); err != nil || !bytes.Equal(got, m) {
+			return fmt.Errorf("ref/sm2enc self test: %s ASN.1 round trip", v.cv.Name())
+		}
+		if len(Mask(v.cv, c3.X2, c3.Y2, 1)) != 1 || len(c3.Point(Uncompressed)) != 1+2*v.elemSize {
+			return fmt.Errorf("ref/sm2enc self test: %s sizes", v.cv.Name())
+		}
 	}
 	return nil
 }
